@@ -21,10 +21,24 @@ static std::string showParams(const Simplex& s) {
   for (size_t i = 1; i <= n; ++i) { r += hx(s.getParameterValue("theta" + TextTools::toString(i))); r += " "; }
   return r;
 }
-static std::string showS(const Simplex& s) { return showV(s.getFrequencies()) + "; " + showParams(s); }
+// the accessors must agree with each other: dimension(), prob(i), getFrequencies(), parameter count
+static std::string accessors(const Simplex& s) {
+  const std::vector<double>& f = s.getFrequencies();
+  if (s.dimension() != f.size()) return "inconsistent-accessors:dimension ";
+  for (size_t i = 0; i < f.size(); ++i) {
+    double a = s.prob(i), b = f[i];
+    if (std::memcmp(&a, &b, sizeof a) != 0) return "inconsistent-accessors:prob ";
+  }
+  unsigned short m = s.getMethod();
+  if (m >= 1 && m <= 3 && s.getNumberOfParameters() != (f.empty() ? 0 : f.size() - 1)) return "inconsistent-accessors:parameters ";
+  // (getNumberOfIndependentParameters() is not compared: after operator= the independent list of
+  //  AbstractParameterAliasable still refers to the old parameters — property C03's subject)
+  return "";
+}
+static std::string showS(const Simplex& s) { return accessors(s) + showV(s.getFrequencies()) + "; " + showParams(s); }
 static std::string showO(const OrderedSimplex& o) {
   const Simplex& b = o;
-  return showV(o.getFrequencies()) + "; " + showV(b.getFrequencies()) + "; " + showParams(o);
+  return accessors(b) + showV(o.getFrequencies()) + "; " + showV(b.getFrequencies()) + "; " + showParams(o);
 }
 static std::vector<double> vec(const Toks& t, size_t from) {
   std::vector<double> v; for (size_t i = from; i < t.size(); ++i) v.push_back(hexToDouble(t[i])); return v;
